@@ -123,7 +123,8 @@ ROW_KINDS = ["format", "format-again", "property", "field", "check", "comment"]
 def rule_row_order(ctx):
     model = ctx.model
     ctx.res.minimum("O9.2", 1)
-    max_rows = 4 if ctx.thorough else 3
+    # four rows are the least that show "a field row after a check row": format > field > check > field
+    max_rows = 5 if ctx.thorough else 4
 
     def cell(ch):
         count = ch.choose("rows", list(range(0, max_rows + 1)))
@@ -184,6 +185,7 @@ def rule_row_order(ctx):
         # reference
         expected = None
         has_format = False
+        has_check = False
         field_names = []
         for index, kind in enumerate(kinds):
             if kind in ("format", "format-again"):
@@ -196,7 +198,8 @@ def rule_row_order(ctx):
                     expected = "raise InterfaceError at line %d" % index
                     break
             elif kind == "field":
-                if not has_format:
+                if not has_format or has_check:
+                    # "every check follows the fields": a field row after a check row is refused at that row
                     expected = "raise InterfaceError at line %d" % index
                     break
                 field_names.append("field%d" % index)
@@ -204,6 +207,7 @@ def rule_row_order(ctx):
                 if not field_names:
                     expected = "raise InterfaceError at line %d" % index
                     break
+                has_check = True
         if expected is None:
             if not has_format or not field_names:
                 expected = "raise InterfaceError at line %d" % len(kinds)
@@ -370,7 +374,8 @@ def rule_check_row(ctx):
 
     def cell(ch):
         description = ch.choose("description", ["must be unique", ""])
-        check_type = ch.choose("type", ["IsUnique", "isunique", "Unknown", ""])
+        check_type = ch.choose("type", ["IsUnique", "isunique", "Unknown", "", "IsUnique ", " IsUnique"])
+        rule_text = ch.choose("rule", ["a, b", " a, b ", "a, b "])
         padding = ch.choose("empty cells before the type", [0, 1, 2])
         duplicate = ch.choose("description used before", [False, True])
         construction = ch.choose("construction", ["ok", "InterfaceError"])
@@ -402,7 +407,7 @@ def rule_check_row(ctx):
         if duplicate and description:
             cid.attrs["_check_name_to_check_map"][description] = earlier
             cid.attrs["_check_names"].append(description)
-        items = [description] + [""] * padding + [check_type, "a, b"]
+        items = [description] + [""] * padding + [check_type, rule_text]
         try:
             interp.call_function(model.func(CID + ".add_check_row"), [cid, (items + [""] * 6)[:6]], {}, None)
             outcome = "accepted"
@@ -412,8 +417,9 @@ def rule_check_row(ctx):
                 error_location = raised.value.attrs.get("_location")
                 if not isinstance(error_location, Obj) or error_location.attrs.get("_line") != 9:
                     outcome += " without the row's location"
-        key = "description=%r type=%r padding=%d duplicate=%s construction=%s" % (description, check_type, padding, duplicate, construction)
-        accepted = bool(description) and check_type == "IsUnique" and not duplicate and construction == "ok"
+        key = "description=%r type=%r rule=%r padding=%d duplicate=%s construction=%s" % (description, check_type, rule_text, padding, duplicate, construction)
+        # surrounding blanks in the cells of a row do not change its meaning (as in field rows)
+        accepted = bool(description) and check_type.strip() == "IsUnique" and not duplicate and construction == "ok"
         if not accepted:
             return (key, outcome, "raise InterfaceError")
         if outcome != "accepted":
@@ -421,12 +427,13 @@ def rule_check_row(ctx):
         init = seen.get("init")
         problems = []
         if not init or init[0] != description or init[1] != "a, b" or init[2] is not cid.attrs["_field_names"] or init[3] is not location:
+            # (the rule reaches the check without the blanks around the cell: a leading blank is an INDENT token)
             problems.append("constructor received %r" % (init,))
         if cid.attrs["_check_names"][-1:] != [description] or description not in cid.attrs["_check_name_to_check_map"]:
             problems.append("check not registered in declaration order")
         return (key, "; ".join(problems) if problems else "accepted", "accepted")
 
-    decide(ctx, "O9.6c", "add_check_row(description, type, padding, duplicates)", CID + ".add_check_row", cell, min_cells=60)
+    decide(ctx, "O9.6c", "add_check_row(description, type, padding, duplicates)", CID + ".add_check_row", cell, min_cells=200)
 
 
 # ------------------------------------------------------------------------------------------------- O9.7
@@ -632,4 +639,12 @@ def rule_known_types(ctx):
     rule_builtin_types_are_registered(ctx, "O9.9")
 
 
-RULES = [rule_row_dispatch, rule_row_order, rule_field_names, rule_field_row, rule_check_row, rule_is_unique_rule, rule_distinct_count_rule, rule_located_errors, rule_known_types, rule_module_state]
+def rule_overlapping_items(ctx):
+    """O9.10: "a well-formed length and rule" - overlapping items are refused whichever comes first (C01's table of
+    Range._items_overlap)."""
+    from .c01 import items_overlap_table
+
+    items_overlap_table(ctx, "O9.10")
+
+
+RULES = [rule_row_dispatch, rule_row_order, rule_field_names, rule_field_row, rule_check_row, rule_is_unique_rule, rule_distinct_count_rule, rule_located_errors, rule_known_types, rule_overlapping_items, rule_module_state]
